@@ -209,8 +209,10 @@ def rule_H6(ctx) -> None:
         if isinstance(c, ast.Call) and isinstance(c.func, ast.Attribute) and c.func.attr == "startswith" and c.args and isinstance(c.args[0], (ast.Constant, ast.Tuple)):
             vals = [c.args[0].value] if isinstance(c.args[0], ast.Constant) else [e.value for e in c.args[0].elts if isinstance(e, ast.Constant)]
             prefixes += [v for v in vals if isinstance(v, str)]
-        if isinstance(c, ast.Compare) and isinstance(c.left, ast.Subscript) and any(isinstance(x, ast.Constant) and x.value == "_" for x in c.comparators):
-            prefixes.append("_")
+        if isinstance(c, ast.Compare) and isinstance(c.left, ast.Subscript):
+            for x in c.comparators:
+                if isinstance(x, ast.Constant) and isinstance(x.value, str) and x.value and set(x.value) == {"_"}:
+                    prefixes.append(x.value)
     sunder = any(isinstance(c, ast.Call) and ast.unparse(c.func) in ("_is_sunder", "_is_private") for c in ast.walk(fn))
     bad = [p_ for p_ in prefixes if p_ and set(p_) == {"_"} and len(p_) < 2]
     if bad or sunder:
